@@ -231,8 +231,9 @@ def expand_fn(src, qual, opts, sections, tline0, notes):
             if s['n'] > len(loops) or s['n'] < 1:
                 raise GenError('%s %s: loop %d not found (%d loops)' % (src.rel, qual, s['n'], len(loops)))
             lk = loops[s['n'] - 1]
-            if 'expect' in s and not text[lk.start():].startswith(s['expect']):
-                raise GenError('%s %s: loop %d header changed (expected %r)' % (src.rel, qual, s['n'], s['expect']))
+            # only the loop KEYWORD is an anchor; a changed condition must reach the verifier, not stop here
+            if 'expect' in s and lk.group(1) != s['expect'].split()[0]:
+                raise GenError('%s %s: loop %d is now a `%s` loop (expected %r)' % (src.rel, qual, s['n'], lk.group(1), s['expect']))
             depth = 0
             lb = None
             for i in range(lk.end(), bc):
